@@ -1,6 +1,6 @@
 (* C06 -- execution results depend only on definitions, name and data, not on history.
    Only the property theorems; proofs are in proofs/EngineFacts.v. *)
-From V Require Import lib.Base model.TContext model.TTree model.TEscaper model.Engine spec.EngineSpec proofs.EngineFacts.
+From V Require Import lib.Base model.TContext model.TTree model.TEscaper model.Engine spec.EngineSpec proofs.EngineFacts proofs.EngineHistFacts proofs.EngineInvFacts proofs.EngineOkFacts.
 
 (* repeating a successful Execute returns the same answer: the analysis is not run again, the
    committed trees are not touched again (contextual rewriting is applied once) *)
@@ -20,3 +20,22 @@ Definition C06_history_independent_full_statement : Prop :=
     Forall (fun o => is_exec_op o = true) hist ->
     tree_of (fst (run (defs ++ hist ++ [OExecuteTemplate 0 name]))) 0 callee =
     tree_of (fst (run (defs ++ [OExecuteTemplate 0 name]))) 0 callee.
+
+(* ---- over histories ---- *)
+(* in every reachable world: once Execute through a handle has succeeded, every later Execute through
+   that handle - after ANY further history of API calls (New, Parse, Clone, Lookup, Execute, ExecuteTemplate
+   ... through any handles of any set; t.New only for names its set does not define yet) - answers by
+   running the very same text object: the analysis is not repeated, the template is not re-pointed, the
+   status is not lost.  (That the TREE of that text object is not rewritten again by later analyses of
+   other templates is the part of the property that findings D1 / D6 refute for helpers; it is decided
+   by the fresh-set oracle.) *)
+Theorem C06_idempotent_forever : forall ops0 h o ops,
+  let w0 := run_from world0 ops0 in
+  handle w0 h = Some o -> h_err (get_tmpl w0 o) = EEscOK ->
+  let w := fst (step w0 (OExecute h)) in
+  no_redefine_hist w ops ->
+  let w' := run_from w ops in
+  snd (step w0 (OExecute h)) = RExec (h_text (get_tmpl w0 o)) /\
+  snd (step w' (OExecute h)) = RExec (h_text (get_tmpl w0 o)).
+Proof. exact exec_ok_forever. Qed.
+Print Assumptions C06_idempotent_forever.
